@@ -3,6 +3,7 @@ from engine import *
 import obligations
 import provenance
 import guards
+import writes
 import mutations
 import accessors
 import tlv
@@ -414,3 +415,4 @@ def r06F(F):
 	return C11.r11F(F, '06.F')
 RULES.append(('06.F', 'filter_block remembers every transaction it reports, so that a justice transaction spending an in-block HTLC transaction of a revoked commitment is seen (11.F under C06)', r06F))
 RULES.append(('06.G', 'guard census: no reviewed call of a workspace function and no reviewed mutation of a stored collection gained a controlling branch condition (an added `&& cond`, early return / continue, more specific match arm in front of an act); counts per call site, name free (rules/guards.py)', lambda F: guards.for_property(F, 'C06', '06.G')))
+RULES.append(('06.W', 'field assignments: every reviewed (function, Type.field) direct assignment is still made - state that a path no longer updates, or updates only conditionally (get_or_insert for an overwrite); generalises NN.R (rules/writes.py)', lambda F: writes.for_property(F, 'C06', '06.W')))
